@@ -23,7 +23,8 @@ RULE = (
     "wait_for_startup_reset() under a caller timeout) x (peer script: RSTACK(code) / ERROR(code) / "
     "nothing, at a time from {before the request, in time, exactly the timeout instant before / "
     "after the timer, late, twice}) x (connection loss or EOF at a step from {none, before the "
-    "request, while waiting, same loop iteration as the timeout, after completion}).  RSTACK codes "
+    "request, while waiting, same loop iteration as the timeout, after completion}) x (optionally: an NCP DATA frame arriving between the RST and the RSTACK; one or two "
+    "further reset requests on the same gateway after the first ended by completion, timeout or failure code).  RSTACK codes "
     "0..255 are enumerated completely; the other dimensions are crossed as listed in the shard "
     "plan.  Non-trivial = the waiter was released by a wire event, a loss or the timeout; distinct "
     "= distinct (case parameters) tuples, all different by construction."
@@ -42,7 +43,9 @@ REACH = {
         "rstack_before_request", "rstack_twice", "rstack_at_boundary_before", "rstack_at_boundary_after",
         "error_frame_failure", "loss_before_request", "loss_while_waiting", "loss_same_iteration_as_timeout",
         "loss_after_completion", "eof_while_waiting", "startup_completed", "startup_loss",
-        "startup_loss_same_iteration_as_timeout", "numbering_restarted_checked", "clean_close_while_waiting"]
+        "startup_loss_same_iteration_as_timeout", "numbering_restarted_checked", "clean_close_while_waiting",
+        "numbering_checked_after_reset", "numbering_checked_after_startup", "second_request_judged",
+        "request_after_a_timed_out_request_completed", "ncp_frame_between_rst_and_rstack"]
     for t in ("quick", "thorough")
 }
 SOFTWARE = 0x0B
@@ -135,72 +138,100 @@ def run_case(case):
                     tr.append(("lost_raised", clock(), repr(e)))
             loop.call_soon(_cl)
 
-        script = case["script"]  # list of (when, what, code); when in "pre","in","T-","T+","late"
-        loss = case.get("loss")  # (when, kind)
+        def wire_bytes(what, code):
+            if what == "rstack":
+                return R.encode_rstack(code)
+            if what == "error":
+                return R.encode_error(code)
+            # a DATA frame of the NCP that was already on its way when the host asked for the reset
+            return R.encode_data(code, 0, 0, b"in-flight")
 
-        for when, what, code in script:
-            if when == "pre":
-                feed(R.encode_rstack(code) if what == "rstack" else R.encode_error(code), (what, code))
-        if loss and loss[0] == "pre":
-            lose(loss[1])
-        await vloop.settle(loop, 3)
-
-        t0 = clock()
-        tr.append(("call", t0, case["waiter"]))
-        caller_timeout = case.get("caller_timeout", 1.0)
-
-        async def waiter():
-            try:
-                if case["waiter"] == "reset":
-                    await gw.reset()
-                else:
-                    async with asyncio.timeout(caller_timeout):
-                        await gw.wait_for_startup_reset()
-            except asyncio.CancelledError:
-                raise
-            except BaseException as e:  # noqa: BLE001
-                tr.append(("exc", clock(), type(e).__name__, str(e)[:80]))
-            else:
-                tr.append(("ret", clock()))
-
-        task = asyncio.ensure_future(waiter())
-        await asyncio.sleep(0)
-        deadline = t0 + (reset_timeout if case["waiter"] == "reset" else caller_timeout)
-        ts = [w for w in loop.pending_host_timers()]
-        T = min(ts, key=lambda w: abs(w - deadline)) if ts else deadline
-        tr.append(("deadline", T))
-
-        def at(when, fn, *a):
-            if when == "in":
-                loop.io_at(t0 + 0.2, fn, *a)
-            elif when == "in2":
-                loop.io_at(t0 + 0.4, fn, *a)
-            elif when == "T-":
-                loop.io_at(T, fn, *a)
-            elif when == "T+":
-                loop.io_after(T, fn, *a)
-            elif when == "late":
-                loop.io_at(T + 0.7, fn, *a)
-
-        for when, what, code in script:
-            if when != "pre":
-                at(when, feed, R.encode_rstack(code) if what == "rstack" else R.encode_error(code), (what, code))
-        if loss and loss[0] not in ("pre", "after"):
-            at(loss[0], lose, loss[1])
-        await asyncio.wait([task])
-        await asyncio.sleep(1.5)  # let late events arrive
-        tr.append(("waiter_done", clock()))
-        completed = any(e[0] == "ret" for e in tr)
-        if completed and not (loss and loss[0] != "after") and case["waiter"] == "reset":
-            # numbering restarted in both directions?
-            wire.on_data = None
-            mark = len(tr)
-            snd = asyncio.ensure_future(gw.send_data(b"after-reset"))
-            await asyncio.sleep(0)
-            feed(R.encode_data(0, 0, 1, b"ncp-first"), ("data", 0))
+        async def one_round(script, loss, waiter_kind):
+            round_start = len(tr)
+            wire.on_data = auto_ack
+            for when, what, code in script:
+                if when == "pre":
+                    feed(wire_bytes(what, code), (what, code))
+            if loss and loss[0] == "pre":
+                lose(loss[1])
             await vloop.settle(loop, 3)
-            tr.append(("post_check", clock(), mark))
-            snd.cancel()
+
+            t0 = clock()
+            tr.append(("call", t0, waiter_kind))
+            caller_timeout = case.get("caller_timeout", 1.0)
+
+            async def waiter():
+                try:
+                    if waiter_kind == "reset":
+                        await gw.reset()
+                    else:
+                        async with asyncio.timeout(caller_timeout):
+                            await gw.wait_for_startup_reset()
+                except asyncio.CancelledError:
+                    raise
+                except BaseException as e:  # noqa: BLE001
+                    tr.append(("exc", clock(), type(e).__name__, str(e)[:80]))
+                else:
+                    tr.append(("ret", clock()))
+
+            task = asyncio.ensure_future(waiter())
+            await asyncio.sleep(0)
+            deadline = t0 + (reset_timeout if waiter_kind == "reset" else caller_timeout)
+            ts = [w for w in loop.pending_host_timers()]
+            T = min(ts, key=lambda w: abs(w - deadline)) if ts else deadline
+            tr.append(("deadline", T))
+
+            def at(when, fn, *a):
+                if when == "in0":
+                    loop.io_at(t0 + 0.1, fn, *a)
+                elif when == "in":
+                    loop.io_at(t0 + 0.2, fn, *a)
+                elif when == "in2":
+                    loop.io_at(t0 + 0.4, fn, *a)
+                elif when == "T-":
+                    loop.io_at(T, fn, *a)
+                elif when == "T+":
+                    loop.io_after(T, fn, *a)
+                elif when == "late":
+                    loop.io_at(T + 0.7, fn, *a)
+
+            for when, what, code in script:
+                if when != "pre":
+                    at(when, feed, wire_bytes(what, code), (what, code))
+            if loss and loss[0] not in ("pre", "after"):
+                at(loss[0], lose, loss[1])
+            await asyncio.wait([task])
+            await asyncio.sleep(1.5)  # let late events arrive
+            tr.append(("waiter_done", clock()))
+            completed = any(e[0] == "ret" for e in tr[round_start:])
+            late_sw = any(e[0] == "rx" and e[2] == ("rstack", SOFTWARE) for e in tr[round_start:]) and not completed
+            if completed and not (loss and loss[0] != "after"):
+                # numbering restarted in both directions?  (also after a completed start-up wait)
+                wire.on_data = None
+                tr.append(("post_begin", clock()))
+                mark = len(tr)
+                snd = asyncio.ensure_future(gw.send_data(b"after-reset"))
+                await asyncio.sleep(0)
+                feed(R.encode_data(0, 0, 1, b"ncp-first"), ("data", 0))
+                await vloop.settle(loop, 3)
+                tr.append(("post_check", clock()))
+                # acknowledge whatever the host sent so that later rounds start from a quiet link
+                for e in tr[mark:]:
+                    if e[0] == "wr":
+                        for cancel, fr, raw in R.split_wire(e[2])[0]:
+                            if fr is not None and fr.kind == "DATA":
+                                feed(R.encode_ack((fr.frm + 1) % 8), ("ack", (fr.frm + 1) % 8))
+                try:
+                    await asyncio.wait_for(snd, 0.5)
+                except BaseException:  # noqa: BLE001
+                    pass
+        loss = case.get("loss")  # (when, kind)
+        await one_round(case["script"], loss, case["waiter"])
+        # further reset requests on the same gateway (each judged like the first)
+        for nxt in case.get("then", []):
+            tr.append(("round", clock()))
+            await asyncio.sleep(nxt.get("gap", 0.3))
+            await one_round(nxt["script"], None, nxt.get("waiter", "reset"))
         if loss and loss[0] == "after":
             lose(loss[1])
             await vloop.settle(loop, 4)
@@ -214,6 +245,34 @@ def run_case(case):
 
 
 def judge(case, tr, info, reset_timeout):
+    """Every reset request on the gateway is judged by the same rules, on its own segment."""
+    segs = [[]]
+    for e in tr:
+        if e[0] == "round":
+            segs.append([])
+        else:
+            segs[-1].append(e)
+    subs = [case] + [dict(waiter=n.get("waiter", "reset"), script=n["script"], tx=case["tx"], rx=case["rx"]) for n in case.get("then", [])]
+    bad, facts = [], set()
+    for k, (seg, sub) in enumerate(zip(segs, subs)):
+        inf = dict(info)
+        if k != len(segs) - 1:
+            inf["hang"] = None
+        if len(segs) < len(subs) and k == len(segs) - 1:
+            pass
+        b, f = judge_one(sub, seg, inf, reset_timeout)
+        bad += [(key, (f"[request {k + 1} on this gateway] " if k else "") + msg) for key, msg in b]
+        facts |= f
+        if k:
+            facts.add("second_request_judged")
+            if any(e[0] == "ret" for e in seg) and not any(e[0] == "ret" for e in segs[k - 1]):
+                facts.add("request_after_a_timed_out_request_completed")
+    if len(segs) < len(subs) and not info["hang"]:
+        bad.append(("C11/hang/waiter-left-pending", "a later reset request never started"))
+    return bad, facts
+
+
+def judge_one(case, tr, info, reset_timeout):
     bad = []
     facts = set()
     if info["hang"]:
@@ -306,7 +365,8 @@ def judge(case, tr, info, reset_timeout):
     # numbering after a completed handshake
     pc = next((e for e in tr if e[0] == "post_check"), None)
     if pc is not None:
-        seg = tr[pc[2]:]
+        seg = tr[next(i for i, e in enumerate(tr) if e[0] == "post_begin"):tr.index(pc)]
+        facts.add("numbering_checked_after_" + waiter)
         datas = []
         acks = []
         for e in seg:
@@ -387,6 +447,24 @@ def gen_cases(tier, seed):
         for lw in ["in", "T-", "T+", "late"]:
             for kind in ["error", "eof", "close"]:
                 cases.append({"waiter": "startup", "tx": i, "rx": j, "script": [], "loss": (lw, kind)})
+    # E. several reset requests on one gateway: every one of them must write its own RST and end
+    #    by RSTACK(0x0B) or by the reset timeout, whatever happened to the previous one
+    SW_IN = [("in", "rstack", SOFTWARE)]
+    for (i, j) in ntx:
+        for first in ([], [("late", "rstack", SOFTWARE)], [("T+", "rstack", SOFTWARE)], SW_IN, [("in", "rstack", 0x02)], [("in", "error", 0x51)]):
+            for second in (SW_IN, [], [("pre", "rstack", SOFTWARE), ("in", "rstack", SOFTWARE)]):
+                cases.append({"waiter": "reset", "tx": i, "rx": j, "script": first, "then": [{"script": second}]})
+        cases.append({"waiter": "reset", "tx": i, "rx": j, "script": [], "then": [{"script": []}, {"script": SW_IN}]})
+        cases.append({"waiter": "startup", "tx": i, "rx": j, "script": [], "then": [{"script": SW_IN}]})
+        cases.append({"waiter": "startup", "tx": i, "rx": j, "script": SW_IN, "then": [{"script": SW_IN}, {"script": SW_IN, "waiter": "startup"}]})
+    # F. an NCP frame that was already on its way arrives between the RST and the RSTACK (old numbering:
+    #    the next expected number, or zero): whatever the host does with it, numbering restarts at the RSTACK
+    for (i, j) in (pairs if tier == "thorough" else ntx + [(0, 1), (2, 0), (5, 3)]):
+        for frm in sorted({j, 0, (j + 1) % 8}):
+            cases.append({"waiter": "reset", "tx": i, "rx": j, "script": [("in0", "data", frm), ("in", "rstack", SOFTWARE)]})
+    # G. completed start-up wait after prior traffic, all counter pairs
+    for (i, j) in (pairs if tier == "thorough" else pairs[::5]):
+        cases.append({"waiter": "startup", "tx": i, "rx": j, "script": [("in", "rstack", SOFTWARE)]})
     return cases
 
 
@@ -424,8 +502,10 @@ def run_one(acc: Acc, case):
             acc.hit("startup_loss")
             if loss[0] == "T-":
                 acc.hit("startup_loss_same_iteration_as_timeout")
+    if any(what == "data" for w, what, c in sc):
+        acc.hit("ncp_frame_between_rst_and_rstack")
     for w, what, c in sc:
-        if what == "rstack" and w == "in" and len(sc) == 1 and case["waiter"] == "reset":
+        if what == "rstack" and w == "in" and len(sc) == 1 and case["waiter"] == "reset" and not case.get("then"):
             acc.reach["code:%d" % c] += 1
     acc.reach["pair:%d:%d" % (case["tx"], case["rx"])] += 1
     if any(e[0] in ("ret", "exc") for e in tr):
@@ -465,6 +545,8 @@ def replay(case) -> Acc:
     if isinstance(case.get("loss"), list):
         case["loss"] = tuple(case["loss"])
     case["script"] = [tuple(x) for x in case["script"]]
+    for n in case.get("then", []):
+        n["script"] = [tuple(x) for x in n["script"]]
     tr, bad = run_one(acc, case)
     print("\n".join(pretty(tr)))
     return acc
